@@ -162,6 +162,10 @@ class Theory:
     def str_method(self, interp, s, name):
         return None
 
+    def joined_str(self, interp, e, fr):
+        """value of an f-string (ast.JoinedStr), or None: opaque"""
+        return None
+
     def power(self, interp, a, b):
         return None
 
